@@ -121,7 +121,7 @@ def cts_cfg(name, prop, kinds, bs, ws, maxl, fixed, invs, replay=True):
 
 CTS = ["cbccs1", "cbccs2", "cbccs3", "ecbcs1", "ecbcs2", "ecbcs3"]
 for prop in ("C05", "C13"):
-    cts_cfg("MC_Cts_%s_q" % prop, prop, CTS, 2, [2, 3], 7, True, ["C05", "C12", "C13"])
+    cts_cfg("MC_Cts_%s_q" % prop, prop, CTS, 2, [1, 2, 3], 9, True, ["C05", "C12", "C13"])
     add(prop, "MC_Cts.tla", "MC_Cts_%s_q" % prop, ("quick", "thorough"), 600, ["RunP", "RunQ"])
     cts_cfg("MC_Cts_%s_t1" % prop, prop, CTS, 3, [2], 13, True, ["C05", "C12", "C13"])
     add(prop, "MC_Cts.tla", "MC_Cts_%s_t1" % prop, ("thorough",), 1800, ["RunP", "RunQ"])
